@@ -228,6 +228,10 @@ def gen_custom_plan(rw, N, fs, max_bins=14, Lcap=None):
         kind = rw.random()
         if span == 0:
             starts = [0] * (1 if kind < 0.7 else K)
+        elif kind < 0.08 and K >= 3 and span >= 2 * (K - 1):
+            h = rw.randrange(1, span // (K - 1) + 1)
+            s0 = rw.randrange(0, span - h * (K - 1) + 1)
+            starts = [s0, s0 + h] + sorted(rw.randrange(s0, s0 + h * (K - 1) + 1) for _ in range(K - 3)) + [s0 + h * (K - 1)]
         elif kind < 0.6:
             starts = sorted(rw.randrange(0, span + 1) for _ in range(K))
         elif kind < 0.8:
